@@ -589,7 +589,20 @@ impl Server {
                             pending
                         });
                         if linger > 0 {
-                            std::thread::sleep(std::time::Duration::from_millis(linger));
+                            // wait (at most `linger` ms) until the writer's background work has finished, i.e. until
+                            // the temp area is empty again; a fixed sleep would depend on machine load
+                            let tmp = std::path::PathBuf::from(req.get("tmp_dir").and_then(|x| x.as_str()).unwrap_or("")).join("tmp");
+                            let t0 = std::time::Instant::now();
+                            loop {
+                                let empty = match std::fs::read_dir(&tmp) {
+                                    Ok(mut it) => it.next().is_none(),
+                                    Err(_) => true,
+                                };
+                                if empty || t0.elapsed().as_millis() as u64 >= linger {
+                                    break;
+                                }
+                                std::thread::sleep(std::time::Duration::from_millis(5));
+                            }
                         }
                         Ok(json!({"pending": polled}))
                     }
